@@ -89,6 +89,24 @@ def rule_r2(ctx):
         )
     else:
         rr.ok(what, sample={"rule": "C15-R2", "verdict": "raise when a replacement field contains a backslash, on every host"})
+    # the quote of the f-string itself cannot occur in a field either (it could only be escaped with
+    # a backslash): a string constant inside the field that contains it - `f"""{d["it's"]}"""` - is
+    # written with the other quote and would carry the outer one raw
+    rr.instances += 1
+    what = "JoinedStr|outer-quote"
+    qtests = [p for p in paths if any(k.startswith("contains:") and "<qm>" in k for k in p.assign)]
+    if not qtests:
+        rr.fail(
+            "C15-R2|JoinedStr|outer-quote-not-tested",
+            f"{U.gen_map['JoinedStr'].where()}: the f-string renderer never tests whether a replacement field contains the quotation mark of the f-string: `f\"\"\"{{d[\"it's\"]}}\"\"\"` becomes `f'{{d[\"it's\"]}}'`, which Python 3.8-3.11 cannot lex (unterminated string)",
+            where=U.gen_map["JoinedStr"].where(), what=what,
+        )
+    else:
+        accepted = [p for p in qtests if p.outcome != "raise" and any(k.startswith("contains:") and "<qm>" in k and v is True for k, v in p.assign.items())]
+        if accepted:
+            rr.fail("C15-R2|JoinedStr|outer-quote-accepted", f"{U.gen_map['JoinedStr'].where()}: a field text containing the quotation mark of the f-string is emitted [{short_ctx(accepted[0], 100)}]", what=what)
+        else:
+            rr.ok(what, sample={"rule": "C15-R2", "verdict": "raise when a replacement field contains the quote of the f-string"})
     # quotes of nested literals (shared with C04-R4)
     from .c04 import rule_r4 as c04r4
 
